@@ -9,6 +9,14 @@
 (***************************************************************************)
 EXTENDS Lang
 
+\* Negative controls: defects that were found on the pinned tree or seeded by independent reviewers, kept as
+\* switchable mutants of the model (overridden to TRUE by the MC_Scanner_*_mut_* configurations with
+\* `CONSTANT Bug_x <- TrueValue`); the invariants of MC_Scanner must refute each of them.
+Bug_HoldNotCleared == FALSE          \* a held small number is not dropped when an unrelated number is queued
+Bug_ThresholdInclusive == FALSE      \* value <= threshold instead of value < threshold
+Bug_RetryIncompleteBreaks == FALSE   \* original: a conjunction restarting the parser after a forced stop is handed to outside_number
+TrueValue == TRUE
+
 (* ---- S3 ---- *)
 NewParser == [int |-> New, dec |-> New, isdec |-> FALSE]
 HasNumber(p) == ~IsEmpty(p.int)
@@ -30,7 +38,7 @@ TrackerNumberEnd(t, ord, text, value, forget) ==
       last1 == IF t.last # kind THEN "none" ELSE t.last
   IN IF last1 # "none" THEN [t EXCEPT !.matches = @ \o t.hold \o <<occ>>, !.hold = <<>>, !.last = kind, !.ms = t.me]
      ELSE IF forget THEN [t EXCEPT !.hold = <<occ>>, !.last = kind, !.ms = t.me]
-     ELSE [t EXCEPT !.matches = Append(@, occ), !.hold = <<>>, !.last = kind, !.ms = t.me]
+     ELSE [t EXCEPT !.matches = Append(@, occ), !.hold = IF Bug_HoldNotCleared THEN @ ELSE <<>>, !.last = kind, !.ms = t.me]
 
 (* ---- S4 ---- *)
 NewScanner == [parser |-> NewParser, tracker |-> NewTracker, hasprev |-> FALSE]
@@ -38,7 +46,7 @@ IsSkip(tok) == tok.text = "-" \/ IsWsOnly(tok.text)
 NumberEnd(L, s, thr) ==
   LET ord == IsOrdinal(s.parser.int)
       f == ParserFinish(L, s.parser)
-      forget == (Len(f.text) = 1 \/ ord) /\ ValueBelow(f.value, thr)
+      forget == (Len(f.text) = 1 \/ ord) /\ (ValueBelow(f.value, thr) \/ (Bug_ThresholdInclusive /\ Canon(f.value) = thr))
   IN [s EXCEPT !.parser = NewParser, !.tracker = TrackerNumberEnd(s.tracker, ord, f.text, f.value, forget)]
 \* outside_number: anything alphabetic (or a lone period) that is not a linking word breaks a sequence.
 \* Repaired: the linking-word lookup uses the lowercase form.
@@ -58,7 +66,7 @@ PushTok(L, s, pos, tok, thr, linking) ==
                    r2 == ParserPush(L, s2.parser, tok.lower)
                    s3 == [s2 EXCEPT !.parser = r2.p]
                IN IF r2.st = "ok" THEN [s3 EXCEPT !.tracker = Advanced(@, pos)]
-                  ELSE IF r2.st = "incomplete" THEN s3          \* repaired: a linking word restarting the parser is skipped
+                  ELSE IF r2.st = "incomplete" /\ ~Bug_RetryIncompleteBreaks THEN s3   \* repaired: a linking word restarting the parser is skipped
                   ELSE Outside(L, s3, tok, linking)
           ELSE Outside(L, s1, tok, linking)
 Finalize(L, s, thr) == IF HasNumber(s.parser) THEN NumberEnd(L, s, thr) ELSE s
